@@ -21,7 +21,12 @@ fn check(id: &str, tier: Tier) -> i32 {
     match id {
         "C13" => {
             let n = ctx.runs(200_000, 20_000_000);
-            run_check(&props::c13::C13, &ctx, &[("histories", n)], |_, _| Vec::new()).exit
+            let nmem = match tier { Tier::Quick => 40_000usize, Tier::Thorough => 2_000_000 };
+            let seed = ctx.seed;
+            let threads = ctx.threads;
+            run_check(&props::c13::C13, &ctx, &[("histories", n)], move |cov, assume| {
+                props::c13::memory_stratum(seed, nmem, threads, cov, assume)
+            }).exit
         }
         "C19" => {
             let n = ctx.runs(3_000, 200_000);
@@ -214,6 +219,34 @@ fn main() {
             let n: usize = args.get(3).and_then(|s| s.parse().ok()).unwrap_or(10);
             let start: usize = args.get(4).and_then(|s| s.parse().ok()).unwrap_or(0);
             props::c12::worker(seed, n, start);
+            0
+        }
+        Some("c13-exec-one") => {
+            // child side of an isolated C13 scenario: scenario JSON on stdin
+            use framework::Check;
+            let mut buf = String::new();
+            let _ = std::io::Read::read_to_string(&mut std::io::stdin(), &mut buf);
+            match serde_json::from_str::<props::c13::Scn>(&buf) {
+                Ok(scn) => {
+                    let rep = props::c13::C13_MEM.execute(&scn);
+                    match rep.failure {
+                        Some(f) => println!("FAIL {} {}", f.clause, f.observed.replace('\n', " ")),
+                        None => println!("OK {:x} {}", rep.trace_hash, rep.nontrivial as u8),
+                    }
+                    0
+                }
+                Err(e) => {
+                    eprintln!("bad scenario: {}", e);
+                    2
+                }
+            }
+        }
+        Some("c13-worker") => {
+            // worker side of the memory stratum: seed, from, to
+            let seed: u64 = args.get(2).and_then(|s| s.parse().ok()).unwrap_or(1);
+            let from: usize = args.get(3).and_then(|s| s.parse().ok()).unwrap_or(0);
+            let to: usize = args.get(4).and_then(|s| s.parse().ok()).unwrap_or(0);
+            props::c13::memory_worker(seed, from, to);
             0
         }
         Some("replay") => {
